@@ -177,8 +177,9 @@ class RawCANTransport(BaseTransport, scheme="can-raw"):
                 can_id |= CAN_INV_FILTER  # noqa: PLW2901
             data += struct.pack("@II", can_id, filter_mask)
         self._sock.setsockopt(SOL_CAN_RAW, CAN_RAW_FILTER, data)
-        if inv_filter:
-            self._sock.setsockopt(SOL_CAN_RAW, CAN_RAW_JOIN_FILTERS, 1)
+        # Inverted filters must all match (deny list); a plain list passes
+        # the frames of any entry. Reset the option, a former call may have set it.
+        self._sock.setsockopt(SOL_CAN_RAW, CAN_RAW_JOIN_FILTERS, 1 if inv_filter else 0)
 
     async def read(
         self,
